@@ -1,7 +1,7 @@
 """Which rules decide which property."""
 from __future__ import annotations
 
-from .rules import frag, c01, c02, c03, c11, c14, c18, c19, c20, cglob
+from .rules import frag, c01, c02, c03, c11, c14, c18, c19, c20, cglob, cflags
 
 ASSUME = [
     'stdlib ast and re._parser front ends are correct',
@@ -210,6 +210,40 @@ PROPERTIES = {
             ('C13-R3', cglob.rule_dedupe_predicate, 'quick'),
             ('C03-R4', c03.rule_exclusion_dotmatch, 'quick'),
             ('C04-R6', cglob.rule_exclusion_slash, 'quick'),
+        ],
+    },
+    'C16': {
+        'explanation': 'static analysis of wcmatch/pathlib.py: argument forwarding and flag composition of every method '
+                       '(bit-vector flag flow), platform decision table of _translate_flags, ValueError sites for absolute '
+                       'patterns, directory-slash rule of _translate_path',
+        'assumptions': ASSUME + ['the rglob/match correspondence on real trees is a runtime quantity and is not decided'],
+        'rules': [
+            ('C16-R1', cflags.rule_pathlib_forwarding, 'quick'),
+            ('C16-R2', cflags.rule_translate_flags, 'quick'),
+            ('C16-R3', cflags.rule_noabsolute, 'quick'),
+            ('C16-R4', cflags.rule_translate_path, 'quick'),
+            ('C13-R2', cglob.rule_yield_filtered, 'quick'),
+            ('C13-R3', cglob.rule_dedupe_predicate, 'quick'),
+            ('C04-R2', cglob.rule_platform_twins, 'quick'),
+            ('C02-R6', c02.rule_matchbase, 'quick'),
+        ],
+    },
+    'C17': {
+        'explanation': 'decision tables of the case and platform selectors (bit-vector evaluation over all flag valuations), '
+                       'FORCEWIN^FORCEUNIX cancellation on every entry path (flag flow), drive-letter case emission, '
+                       'separator-parametric fragment templates',
+        'assumptions': ASSUME + ['closure of the accepted language under case / separator substitution is not decided'],
+        'rules': [
+            ('C17-R1', cflags.rule_case_table, 'quick'),
+            ('C17-R2', cflags.rule_platform_table, 'quick'),
+            ('C17-R3', cflags.rule_cancellation, 'quick'),
+            ('C02-R8', c02.rule_forced_pathname, 'quick'),
+            ('C01-R3i', frag.rule_parse_wrapper, 'quick'),
+            ('C17-R4', cflags.rule_case_emission, 'quick'),
+            ('C05-R2', cglob.rule_case_fold_agreement, 'quick'),
+            ('C17-R5', cflags.rule_sep_parametric, 'quick'),
+            ('C02-R1', frag.rule_site_templates, 'quick'),
+            ('C20-R4', c20.rule_normalise_before_expand, 'quick'),
         ],
     },
 }
